@@ -1,14 +1,6 @@
 // ---------------------------------------------------------------------------------------------
 // C14 (round-trip clause): the lossy relation reader as a function of the token sequence.
 // ---------------------------------------------------------------------------------------------
-pub type ProfV = (bool, Seq<char>);   // (negated, name)
-pub ghost struct RelV {
-    pub name: Seq<char>,
-    pub archqual: Option<Seq<char>>,
-    pub version: Option<(dc_relations::VersionConstraint, debversion::Version)>,
-    pub archs: Option<Seq<Seq<char>>>,
-    pub profiles: Seq<Seq<ProfV>>,
-}
 pub open spec fn prof_view(p: dc_relations::BuildProfile) -> ProfV {
     match p { dc_relations::BuildProfile::Enabled(s) => (false, s@), dc_relations::BuildProfile::Disabled(s) => (true, s@) }
 }
